@@ -140,7 +140,7 @@ var docCanonModels = map[int64]string{
 	int64(mkcanon.PowerShotSD1300IS): "Canon IXY 200F",
 	int64(mkcanon.PowerShotA200):     "Canon PowerShot A200",
 	int64(mkcanon.PowerShotA510):     "Canon PowerShot A510",
-	int64(mkcanon.PowerShotA450):     "Canon PowerShot A540",
+	int64(mkcanon.PowerShotA540):     "Canon PowerShot A540", // (ExifTool canonModelID 0x1960000; 0x2190000 is the A450)
 	int64(mkcanon.PowerShotA590IS):   "Canon PowerShot A590 IS",
 	int64(mkcanon.PowerShotA75):      "Canon PowerShot A75",
 	int64(mkcanon.PowerShotA80):      "Canon PowerShot A80",
